@@ -270,12 +270,40 @@ func c15Close(c *cx) {
 			}},
 			{"close request", func(q eng.Point, nd ast.Node) bool { return f.ContainsCall(nd, "xmpp.Session.SendIQElement") != nil }},
 			{"wake readers (close readReady)", func(q eng.Point, nd ast.Node) bool {
-				cl := f.ContainsCall(nd, "builtin.close")
-				if cl == nil {
-					return false
+				if cl := f.ContainsCall(nd, "builtin.close"); cl != nil {
+					if k, _ := f.FieldClass(cl.Args[0]); k == "ibb.Conn.readReady" {
+						return true
+					}
 				}
-				k, _ := f.FieldClass(cl.Args[0])
-				return k == "ibb.Conn.readReady"
+				// or through a helper of the same package that closes the channel
+				// unless an earlier call already did (its only guard is its own
+				// "already closed" flag)
+				found := false
+				ast.Inspect(nd, func(x ast.Node) bool {
+					call, ok := x.(*ast.CallExpr)
+					if !ok || found {
+						return !found
+					}
+					if h := f.Prog.FnOf(calleeFunc(f, call)); h != nil && h.Pkg == f.Pkg && h != f {
+						for _, hc := range h.Calls("builtin.close") {
+							if k, _ := h.FieldClass(hc.Args[0]); k == "ibb.Conn.readReady" {
+								hp, _ := h.Graph().Where(hc)
+								facts := h.Graph().FactsAt(hp)
+								okFacts := true
+								for _, fa := range facts {
+									if fa != "!recv.readClosed" {
+										okFacts = false
+									}
+								}
+								if okFacts {
+									found = true
+								}
+							}
+						}
+					}
+					return !found
+				})
+				return found
 			}},
 		}
 		for _, rs := range g.Returns {
